@@ -73,14 +73,14 @@ def pProblems (fault : String) (checkSF : Bool) (s : St) : List String :=
   (if frontOpen then ["front-open"] else []) ++
   (if (fault == "sever" || fault == "endpoint-close") && s.registered then ["registered"] else []) ++
   (if fault != "cancel" && s.disconnects != 1 then ["disconnect-count"] else []) ++
-  (if (fault == "kick" || fault == "kick-hung") && s.ctl then ["ctl-open"] else []) ++
+  (if (fault == "kick" || fault == "kick-hung" || fault == "kick-hung-hinted") && s.ctl then ["ctl-open"] else []) ++
   (if checkSF && s.cancelled && s.sf != .returned then ["servefront-not-returned"] else []) ++
   (if goroutines then ["goroutines-left"] else [])
 
 def proxyScenario (fault : String) (tunnels seed : Nat) : String :=
   if fault == "sever-backlog" || fault.startsWith "epfault-" then "n/a" else
   let F := Gen.Teardown.facts
-  let hung := fault == "kick-hung"
+  let hung := fault == "kick-hung" || fault == "kick-hung-hinted"
   let n := if hung then tunnels + 1 else tunnels
   let s0 : St := { init ((List.range n).map fun _ => (2, 0)) with hung := hung }
   let setup := if hung then (List.range n).flatMap (fun i => [Ev.front i .arrive, .front i .lookup]) else pSetup n
@@ -173,12 +173,12 @@ def backlogScenario (extra seed : Nat) : String :=
 
 def endpointScenario (fault : String) (tunnels seed : Nat) : String :=
   if fault == "sever-backlog" then backlogScenario (2 + tunnels) seed else
-  if fault == "kick-hung" then "n/a" else
+  if fault == "kick-hung" || fault == "kick-hung-hinted" then "n/a" else
   let F := Gen.Teardown.epFacts
   let faultEvs : List Ev :=
     if fault == "sever" || fault == "kick" || fault == "epfault-cut" then [.sever]
     else if fault == "epfault-text" || fault == "epfault-short" then [.shutdownMsg]  -- the read loop ends on a frame it cannot serve
-    else if fault == "endpoint-close" then [.closeCall]
+    else if fault == "endpoint-close" || fault == "epfault-silent" then [.closeCall]
     else []
   match eRun F init (eSetup tunnels ++ faultEvs) with
   | none => "setup-rejected"
